@@ -2,11 +2,16 @@
 access only; Rust-level undefined behaviour that is not an address range is out of reach of this technique."""
 import os
 import vlib
+import schedcommon as sc
+import schedprop
+import schedupper
 from props import _meta_common as mc
 
 THEOREMS = ["C18_row_in_bounds", "C18_entry_in_bounds", "C18_tree_in_bounds", "C18_slot_in_bounds", "C18_slot_defined",
             "C18_narrow_in_row", "C18_frame_words_exist", "C18_lower_parts", "C18_empty_buffers", "C18_empty_local",
-            "C18_lower_size_mono", "C18_bitfield_stride"]
+            "C18_lower_size_mono", "C18_bitfield_stride",
+            # every access of every reachable state of the machines M1 / M2 (coq/AccessBounds.v)
+            "C18_reachable_m1_access_in_bounds", "C18_reachable_m2_access_in_bounds", "C18_row_index_check"]
 
 NOT_COVERED = [
     "aliasing: `AtomicSlice::non_atomic` casts a shared slice to `&mut [T]` (atomic.rs) while other references exist",
@@ -17,8 +22,22 @@ NOT_COVERED = [
     "`b.end.sub(1)` in MetaData::valid's `overlap` on an empty buffer (pointer arithmetic outside the allocation); the model only "
     "says what the comparison answers when the decrement wraps like an integer",
     "`alloc_zeroed` with a size of 0 in util::aligned_buf (zero frames / zero slots)",
-    "anything only a sanitizer or Miri can observe; concurrent schedules (this check is sequential)",
+    "anything only a sanitizer or Miri can observe",
 ]
+
+
+def conc_jobs_lower(ctx, rel):
+    if ctx.quick:
+        return [["--mode", "exhaustive", "--scenario", "all", "--preemptions", "2"]]
+    return [["--mode", "exhaustive", "--scenario", "all", "--preemptions", "3"],
+            ["--mode", "pct", "--scenario", "all", "--runs", "5000", "--depth", "4", "--seed", str(ctx.seed)]]
+
+
+def conc_jobs_upper(ctx, rel):
+    if ctx.quick:
+        return [["--api", "upper", "--mode", "exhaustive", "--scenario", "all", "--preemptions", "2"]]
+    return [["--api", "upper", "--mode", "exhaustive", "--scenario", "all", "--preemptions", "3"],
+            ["--api", "upper", "--mode", "pct", "--scenario", "all", "--runs", "5000", "--depth", "4", "--seed", str(ctx.seed)]]
 
 
 def run(ctx):
@@ -32,6 +51,19 @@ def run(ctx):
             seeds = [ctx.seed] if ctx.quick else [ctx.seed + i for i in range(3)]
             for i, sd in enumerate(seeds):
                 mc.run_suite(ctx, rel, exe, "meta", oracle, corr, seed=sd, label="-%d" % i)
+    if not ctx.replay:
+        # concurrent schedules: every access of the compiled code, on every explored interleaving of the lower allocator
+        # (machine M1) and of the whole allocator (machine M2), has in-range indices and an aligned lane (ORACLE [C18]);
+        # the step correspondence (CORR) ties the accessed address to the machine's event, for which
+        # C18_reachable_m1/m2_access_in_bounds prove the byte range
+        for jobs, desc, drv in ((conc_jobs_lower, "accesses of compiled Lower::get/put under a deterministic scheduler: index / lane "
+                                 "bounds (ORACLE [C18]) and step correspondence with machine M1 (CORR)", sc.DRIVER),
+                                (conc_jobs_upper, "accesses of compiled LLFree::get/put/drain/change_tree under a deterministic scheduler: "
+                                 "index / lane bounds of tree entries, slots, huge entries and rows (ORACLE [C18]) and step "
+                                 "correspondence with machine M2 (CORR)", sc.UPPER_DRIVER)):
+            o, c = schedprop.collect(ctx, "[C18]", jobs, desc, drv)
+            oracle += o
+            corr += c
     vlib.classify(ctx, proofs_ok, oracle, corr, name="zonerun")
     return vlib.finish(
         ctx,
@@ -40,7 +72,11 @@ def run(ctx):
         "allocator addresses (bitfield row, huge entry, tree entry, local slot, the 1/2/4/8-byte CAS of toggle_int) "
         "lies inside the buffer of the size metadata_size asks for, inside its own part of that buffer, and is "
         "aligned to its width; the indices a managed frame maps to exist; the two slices of Lower::new tile the lower "
-        "buffer; empty buffers have no location; lower_size is monotone.  Tied to the code by comparing "
+        "buffer; empty buffers have no location; lower_size is monotone.  For the small-step machines M1 (lower allocator) "
+        "and M2 (whole allocator): in EVERY reachable state (any number of threads, any schedule) every access the step "
+        "function performs names a word with in-range indices and an aligned lane, hence bytes inside lower_size / trees_size / "
+        "local_size (C18_reachable_m1/m2_access_in_bounds, coq/AccessBounds.v); on the explored interleavings the drivers check "
+        "the same index predicate on every access of the compiled code (ORACLE [C18]).  Tied to the code by comparing "
         "metadata_size and the address and width of every atomic access (verif hooks) of construction and probe "
         "operations on exact-size, guard-fenced buffers with the model's locations.  NOT covered, and not "
         "expressible in an executable Gallina model: " + "; ".join(NOT_COVERED),
@@ -55,6 +91,5 @@ def run(ctx):
             "PARTIAL: address ranges and alignment only; see coverage.not_covered",
             "only accesses through the Atom wrapper are observed (verif hooks); non-atomic initialisation writes are "
             "covered by the model's locations and the guard bytes only",
-            "sequential runs; the location of an access does not depend on the schedule, its legality under the Rust "
-            "memory model does",
+            "the legality of an access under the Rust memory model is not covered (only its address range and alignment)",
         ])
